@@ -59,6 +59,8 @@ class QueryPlanner:
         if isinstance(predictor_metadata, list):
             # convert to dict
             for predictor in predictor_metadata:
+                # work on a copy: the caller's metadata must not be changed
+                predictor = dict(predictor)
                 if 'integration_name' in predictor:
                     integration_name = predictor['integration_name']
                 else:
@@ -70,6 +72,7 @@ class QueryPlanner:
         elif isinstance(predictor_metadata, dict):
             # legacy behaviour
             for name, predictor in predictor_metadata.items():
+                predictor = dict(predictor)
                 if '.' not in name:
                     if 'integration_name' in predictor:
                         integration_name = predictor['integration_name']
@@ -118,6 +121,8 @@ class QueryPlanner:
         idx = '.'.join(idx_ar).lower()
         info = self.predictor_info.get(idx)
         if info is not None:
+            # version and name belong to this lookup, not to the shared metadata
+            info = dict(info)
             info['version'] = version
             info['name'] = name
         return info
